@@ -84,3 +84,62 @@ def extract_macro_rules(src_toks, name):
 def read_tokens(path):
     with open(path, encoding="utf-8") as f:
         return lex(f.read())
+
+
+def split_arms(toks):
+    """split the tokens inside a `match { ... }` into arms: list of (pattern_tokens, body_tokens) (body without trailing comma)"""
+    arms, i, n = [], 0, len(toks)
+    while i < n:
+        j = i
+        while j < n and toks[j] != "=>":
+            if toks[j] in OPEN:
+                j = match_close(toks, j)
+            j += 1
+        if j >= n:
+            break
+        pat = toks[i:j]
+        k = j + 1
+        if k < n and toks[k] == "{":
+            c = match_close(toks, k)
+            body = toks[k:c + 1]
+            k = c + 1
+            if k < n and toks[k] == ",":
+                k += 1
+        else:
+            s = k
+            while k < n and toks[k] != ",":
+                if toks[k] in OPEN:
+                    k = match_close(toks, k)
+                k += 1
+            body = toks[s:k]
+            if k < n:
+                k += 1
+        arms.append((pat, body))
+        i = k
+    return arms
+
+
+def filter_match_arms(toks, scrutinee_pat, keep):
+    """in `toks`, find every `match <scrutinee_pat> { arms }` and drop the arms for which keep(pattern_tokens) is False.
+    returns (new_tokens, dropped_patterns)"""
+    p = Pat("match " + scrutinee_pat + " {") if isinstance(scrutinee_pat, str) else scrutinee_pat
+    out, dropped, i = [], [], 0
+    while i < len(toks):
+        r = p.match_at(toks, i)
+        if r is None:
+            out.append(toks[i]); i += 1
+            continue
+        o = r[0] - 1
+        c = match_close(toks, o)
+        inner, sub_dropped = filter_match_arms(toks[o + 1:c], scrutinee_pat, keep)
+        dropped += sub_dropped
+        arms = split_arms(inner)
+        out.extend(toks[i:o + 1])
+        for pat, body in arms:
+            if keep(pat):
+                out.extend(pat); out.append("=>"); out.extend(body); out.append(",")
+            else:
+                dropped.append(" ".join(pat))
+        out.append("}")
+        i = c + 1
+    return out, dropped
